@@ -32,6 +32,13 @@ def cases(tier, seed):
     for n, lab, o, dsn in zoo.family(tier, seed):
         for hist in ('fresh', 'refit'):
             out.append(('%s/%s/%s/%s' % (n, lab, dsn, hist), (n, lab, o, dsn, seed, hist)))
+    # a transformation whose columns live on very different scales (what a learner that builds L directly returns for
+    # features in very different units): NCA stopped at its array initialisation (tol so large that no step is taken)
+    for dsn in ('S3u', 'S5'):
+        d = data.SPECS[dsn][0]
+        rs = np.random.RandomState(77 + d)
+        L0 = (np.round(rs.randn(d, d) * 8) / 8 + np.eye(d)) * (2.0 ** np.linspace(-27, 27, d))[None, :]
+        out.append(('NCA/init=array_mixed_scales/%s/fresh' % dsn, ('NCA', 'init=array_mixed_scales', {'init': L0, 'n_components': None, 'tol': 1e10}, dsn, seed, 'fresh')))
     return out
 
 
@@ -222,6 +229,16 @@ def run_case(spec):
     tolu = cst * np.array([exact.scale_abs(L, p[0].astype(float), p[1].astype(float)) for p in pu]) + 1e-300
     cmp('pair_distance(uint8 array)', est.pair_distance(pu), tolu, refu)
     cmp('get_metric()(uint8 arrays)', [metric(p[0], p[1]) for p in pu], tolu, refu)
+    # float32 / float16 points (values exactly representable): the arithmetic must still be carried out in double precision
+    for dtf, pts in ((np.float32, pi), (np.float16, pi), (np.float32, pi.astype(float) * 2.0 ** 62)):
+        pf = pts.astype(dtf)
+        if not np.isfinite(pf.astype(float)).all():
+            continue
+        reff = np.array([exact.sqrt_float(exact.d2_exact(Lf, exact.fvec(p[0].astype(float)), exact.fvec(p[1].astype(float)))) for p in pf])
+        tolf = cst * np.array([exact.scale_abs(L, p[0].astype(float), p[1].astype(float)) for p in pf]) + 1e-300
+        lab_ = '%s%s' % (np.dtype(dtf).name, ', coordinates ~2^64' if pts is not pi else '')
+        cmp('pair_distance(%s array)' % lab_, est.pair_distance(pf), tolf, reff)
+        cmp('get_metric()(%s arrays)' % lab_, [metric(p[0], p[1]) for p in pf], tolf, reff)
     for dtq in (np.uint16, np.uint32, np.uint64, np.int8):
         if np.dtype(dtq).kind == 'i':
             pq = (pu // 2).astype(dtq)                     # fits a signed byte
